@@ -69,7 +69,8 @@ def build_cases(encs, rng, tier, seed):
             add('fail_at', tid, t, entry, h, ['d1'] * j + ['f%d:%d' % (k, n)], fail=(j, k, n))
         # kinds with a meaning of their own: UnexpectedEof (mapped by the crate) and Interrupted
         j = rng.randrange(L + 1)
-        add('fail_eof', tid, t, 'deserialize_reader', h, ['d1'] * j + ['fE:%d' % rng.randrange(100)], fail=(j, 'E', 0))
+        n = rng.randrange(100)
+        add('fail_eof', tid, t, 'deserialize_reader', h, ['d1'] * j + ['fE:%d' % n], fail=(j, 'E', n))
     # D. random schedules on everything, including long values
     reps = 2 if tier == 'quick' else 6
     for tid, t, h in encs:
@@ -145,7 +146,12 @@ def oracle(c, hres, sl):
     if f is not None:
         j, k, num = f
         if k == 'E':
-            return None            # the crate's own EOF mapping applies; compared against the model only
+            # an UnexpectedEof raised by the reader itself, with its own message: a genuine reader failure like any
+            # other.  On read_exact paths the crate rewrites it into its own InvalidData error (finding F18, class
+            # reader-eof-rewritten); the model comparison pins down where exactly.
+            if consumed is not None and j is not None and j < consumed and res == 'err InvalidData UnexpectedLength':
+                return ('EOF', 'an UnexpectedEof raised by the reader itself after %d of %d value bytes (message "user:%d") came back as %s' % (j, consumed, num, res))
+            return None
         want = 'err User:%d User:%d' % (k, num)
         if consumed is not None and j is not None:
             if j < consumed:
@@ -208,7 +214,10 @@ def run_cfg(cfg, exe, driver, tier, seed, stats, disagreements, failures, oracle
         rec = {'cfg': cfg, 'type': sexp(c['t']), 'rust': rust(c['t']), 'entry': c['entry'], 'data': short(hx(c['data']), 400),
                'schedule': short(c['sched'], 400), 'family': c['fam'], 'impl': short(h, 300),
                'replay_cmd': "printf '%s\\n' | %s" % (short(harness_lines([c])[0], 600), exe)}
-        if why is not None:
+        if isinstance(why, tuple):
+            failures.append(dict(rec, **{'class': 'reader-eof-rewritten', 'key': '%s %s %s' % (sexp(c['t']), short(hx(c['data']), 80), short(c['sched'], 80)),
+                                         'what': '%s [%s, %s, schedule %s]' % (why[1], rust(c['t']), c['entry'], short(c['sched'], 120))}))
+        elif why is not None:
             failures.append(dict(rec, **{'class': 'reader-dependence', 'key': '%s %s %s' % (sexp(c['t']), short(hx(c['data']), 80), short(c['sched'], 80)),
                                          'what': '%s [%s, %s, schedule %s]' % (why, rust(c['t']), c['entry'], short(c['sched'], 120))}))
         if oracle_only:
